@@ -145,6 +145,10 @@ class FakeSSL:
     def unwrap(self):
         self._next("unwrap")
 
+    def pending(self):
+        """Decrypted bytes buffered inside the SSL object: the scripted object never buffers plaintext."""
+        return 0
+
 
 class FakeTransport:
     def __init__(self, rx, tail, tx, bio_out: FakeBIO):
@@ -277,6 +281,7 @@ class PumpCase:
             nssl = len(fssl.calls)
             val = b""
             exc = None
+            self._eof_before = (bin_.eof_written, bout.eof_written)
             try:
                 if op[0] == 0:
                     await stream._call_sslobject_method(fssl.do_handshake)
@@ -320,8 +325,20 @@ class PumpCase:
                 self.mon.append(f"transport.receive() awaited while {c[1]} produced bytes were still unsent (op {OPN[op[0]]})")
             if c[0] == 1 and c[2] == 1:
                 self.flags.add("transport_eof")
-                if not bin_.eof_written:
-                    self.mon.append("transport EndOfStream not propagated to the incoming BIO (write_eof missing)")
+                if self.std:
+                    if not bin_.eof_written:
+                        self.mon.append("standard_compatible: transport EndOfStream not propagated to the incoming BIO (write_eof missing)")
+                else:
+                    # a ragged end is an ordinary end: report it, do not tell the SSL object (it would treat the EOF as
+                    # fatal and the still open sending direction would be dead too)
+                    self.flags.add("ragged_eof_nonstd")
+                    if code != 1:
+                        self.mon.append(f"not standard_compatible: transport EndOfStream reported as {RES.get(code, code)} by {OPN[op[0]]}")
+                    if (bin_.eof_written, bout.eof_written) != self._eof_before:
+                        self.mon.append("not standard_compatible: the transport's ragged end was passed on to the SSL object "
+                                        "(write_eof() on a BIO): the SSL object is poisoned, the open direction is dead")
+                    if c is not calls[-1] or (sslcalls and sslcalls[-1][1] != 1):
+                        self.mon.append("not standard_compatible: the pump went on after the transport's EndOfStream")
             if c[0] == 1 and c[2] == 0:
                 self.flags.add("fed")
             if c[0] == 0 and c[1] == 0 and c[2] > 0:
@@ -341,7 +358,8 @@ class PumpCase:
                 self.mon.append("standard_compatible: SSL unexpected-EOF reported as a clean EndOfStream")
             if not self.std and code != 1:
                 self.mon.append("not standard_compatible: SSL unexpected-EOF not reported as EndOfStream")
-        if code in (0, 1) and last in (1, 2) and not (op[0] == 4 and not self.std):
+        ragged = (not self.std) and code == 1 and bool(calls) and calls[-1][0] == 1 and calls[-1][2] == 1
+        if code in (0, 1) and last in (1, 2) and not (op[0] == 4 and not self.std) and not ragged:
             self.mon.append(f"{OPN[op[0]]} returned although the SSL object's last answer was "
                             f"{KINDS[last]} (the call was not retried)")
         if code == 0 and op[0] != 4 and bout.pending:
@@ -434,6 +452,20 @@ def small_scope_cases() -> list[PumpCase]:
                                     script.append((k2, 0, [7, 8] if k2 == 0 else [], emit))
                                 rx = [(rxk, [1, 2] if rxk == 0 else [])]
                                 out.append(PumpCase(std, 1, script, rx, [txk] if txk else [], [op, (1, 1)]))
+    return out
+
+
+def ragged_eof_cases() -> list[PumpCase]:
+    """Directed: ragged end under either flag, then a send in the other direction (fix c5df3e8)."""
+    out = []
+    for std in (False, True):
+        for first in ((1, 5), (0,), (3,)):
+            for emit1 in ([], [9]):
+                for nread in (1, 2):
+                    script = [(1, 0, [], emit1)] * nread + ([(5, 0, [], [])] if std else []) + [(0, 0, [2], [23, 3, 3, 0, 2])]
+                    rx = [(0, [1, 2])] * (nread - 1)
+                    out.append(PumpCase(std, 1, script, rx, [], [first, (2, [7, 8])]))
+                    out.append(PumpCase(std, None, script, rx + [(1, [])], [], [first, (2, [7, 8]), (1, 3)]))
     return out
 
 
@@ -553,6 +585,23 @@ def gen_scenarios(rng: random.Random, tier: str, struct):
                 out.append(mk(version=version, std_c=std, std_s=std, chunk_cs=rng.choice(CHUNKINGS), chunk_sc=rng.choice(CHUNKINGS),
                               payload_c=[20], payload_s=[30, 1], recv_c=[7], recv_s=[65536],
                               cut=(rng.choice(["c2s", "s2c"]), ("abs", off)), initiator=rng.choice(["client", "server"])))
+    # 4b. half-close without close_notify, then the reply in the other direction (fix c5df3e8)
+    for version in ("1.2", "1.3"):
+        for std_s in (False, True):
+            for std_c in (False, True):
+                for ch in (CHUNKINGS if not quick else rng.sample(CHUNKINGS, 3)):
+                    ps = rng.choice([[5], [0, 300, 1], [20000], [16385, 1]])
+                    if ch in ("one", "seven") and sum(ps) > 6000:
+                        ps = [700]
+                    out.append(mk(version=version, std_c=std_c, std_s=std_s, chunk_cs=rng.choice(CHUNKINGS), chunk_sc=ch,
+                                  payload_c=rng.choice([[7], [1, 0, 300], [17000]]), payload_s=ps,
+                                  recv_c=rng.choice(recv_sizes[1:]), recv_s=rng.choice(recv_sizes[1:]), mode="half_close"))
+    # 4c. receive() inside an already cancelled scope must not consume anything
+    for version in ("1.2", "1.3"):
+        for ch in ("coalesce", "record", "random"):
+            out.append(mk(version=version, std_c=True, std_s=True, chunk_cs=ch, chunk_sc=ch, payload_c=[3000, 10, 5000],
+                          payload_s=[3000], recv_c=[1000], recv_s=rng.choice([[700], [512], [1000]]),
+                          initiator=rng.choice(["client", "server"]), cancel_probe=rng.choice([2, 3])))
     # 5. random scenarios
     for _ in range(20 if quick else 2500):
         pc = rng.choice(small_payloads + big_payloads)
@@ -675,7 +724,7 @@ NOT_EXHIBITED = [
 def check(tier: str) -> int:
     rep = core.Report("C17", tier)
     rep.assumptions = core.TRUSTED_BASE_COMMON + [
-        "model boundary/TlsPump.v hand-written from src/anyio/streams/tls.py:179-261 (pump loop, unwrap, aclose, receive, send); SSL object = oracle, transport = script",
+        "model boundary/TlsPump.v hand-written from src/anyio/streams/tls.py:179-268 (tree with fix c5df3e8: ragged end not passed to OpenSSL when not standard_compatible) (pump loop, unwrap, aclose, receive, send); SSL object = oracle, transport = script",
         "level: proof, PARTIAL - see 'not exhibited by the model'",
     ] + ["not exhibited by the model: " + x for x in NOT_EXHIBITED]
     proofs_ok = core.proof_stage(rep, "props/C17.v")
@@ -694,7 +743,7 @@ def check(tier: str) -> int:
 
             corpus_b.append(E.Scenario.from_json(j["scenario"]))
     bio_bad = bio_selfcheck(rng, 200 if tier == "quick" else 3000)
-    cases = list(corpus_a) + small_scope_cases()
+    cases = list(corpus_a) + small_scope_cases() + ragged_eof_cases()
     n_small = len(cases) - len(corpus_a)
     n_random = 4000 if tier == "quick" else 150000
     cases += [gen_pump_case(rng) for _ in range(n_random)]
@@ -783,11 +832,11 @@ def check(tier: str) -> int:
     for m in model_outs:
         if m:
             rescount[RES.get(m[0], str(m[0]))] = rescount.get(RES.get(m[0], str(m[0])), 0) + 1
-    interesting_a = {"want_read", "want_write", "transport_eof", "ssl_eof_std", "ssl_eof_nonstd", "clean_eos", "send_failed"}
+    interesting_a = {"want_read", "want_write", "transport_eof", "ragged_eof_nonstd", "ssl_eof_std", "ssl_eof_nonstd", "clean_eos", "send_failed"}
     distinct = len({tuple(f) for f, c in zip(flats, cases) if c.flags & interesting_a})
     e2e_dist: dict = {}
     for sc, _v, _fl, _s in e2e_results:
-        for k in (f"tls{sc.version}", f"chunk:{sc.chunk_cs}", f"chunk:{sc.chunk_sc}", "cut" if sc.cut else "nocut",
+        for k in (f"tls{sc.version}", f"chunk:{sc.chunk_cs}", f"chunk:{sc.chunk_sc}", "cut" if sc.cut else "nocut", f"mode:{sc.mode}",
                   f"std:{int(sc.std_c)}{int(sc.std_s)}"):
             e2e_dist[k] = e2e_dist.get(k, 0) + 1
     rep.coverage.update({
@@ -797,7 +846,7 @@ def check(tier: str) -> int:
         "traces_validated_against_impl": len(cases) - len(disagreements),
         "disagreements_checked": len(disagreements),
         "distinct_nontrivial": distinct + len({json.dumps(sc.to_json(), sort_keys=True) for sc, _v, fl, _s in e2e_results if fl}),
-        "rule": "(a) scripted SSL-object answers (8 outcome kinds, arbitrary consume/emit) x scripted transport (any chunk sizes, EndOfStream, OSError, Broken/ClosedResourceError on receive and send) x op sequences (handshake/receive/send/unwrap/aclose): exhaustive small scope + random, run through the REAL TLSStream methods with fake BIOs and compared observation by observation with the extracted model; (b) real TLS 1.2/1.3 connections between two real TLSStreams over an in-memory transport with 1-byte / 7-byte / per-record / coalesced / random chunking, payload sequences 0 B .. 70 kB, receive sizes 1 .. 65536, both directions concurrently, clean close by either side, mixed standard_compatible, and a cut at every record of a reference conversation x {record start, inside header, after header, mid body, last byte} plus absolute offsets in the handshake; non-trivial = reaches want-read/want-write/EOF/error mapping (a) or any monitor-relevant predicate (b)",
+        "rule": "(a) scripted SSL-object answers (8 outcome kinds, arbitrary consume/emit) x scripted transport (any chunk sizes, EndOfStream, OSError, Broken/ClosedResourceError on receive and send) x op sequences (handshake/receive/send/unwrap/aclose): exhaustive small scope + random, run through the REAL TLSStream methods with fake BIOs and compared observation by observation with the extracted model; (b) real TLS 1.2/1.3 connections between two real TLSStreams over an in-memory transport with 1-byte / 7-byte / per-record / coalesced / random chunking, payload sequences 0 B .. 70 kB, receive sizes 1 .. 65536, both directions concurrently, clean close by either side, mixed standard_compatible, half-close without close_notify followed by the reply in the other direction, receive() in a cancelled scope, and a cut at every record of a reference conversation x {record start, inside header, after header, mid body, last byte} plus absolute offsets in the handshake; non-trivial = reaches want-read/want-write/EOF/error mapping (a) or any monitor-relevant predicate (b)",
         "exhaustive_small_scope_cases": n_small,
         "corpus_cases": len(corpus_a) + len(corpus_b),
         "pump_cases": len(cases),
@@ -817,9 +866,10 @@ def check(tier: str) -> int:
         "samples": [cases[i].to_json()["readable"] | {"outs": cases[i].outs[:60]} for i in idx[:2]] +
                    [{"scenario": sc.to_json(), "summary": s} for sc, _v, _fl, s in e2e_results[:1] + e2e_results[-1:]],
     })
-    need_a = ("want_read", "want_write", "transport_eof", "ssl_eof_std", "ssl_eof_nonstd", "clean_eos", "flushed", "fed")
+    need_a = ("want_read", "want_write", "transport_eof", "ragged_eof_nonstd", "ssl_eof_std", "ssl_eof_nonstd", "clean_eos", "flushed", "fed")
     need_b = ("cut_during_handshake", "cut_mid_record", "cut_between_records", "cut_after_handshake", "truncated_std",
               "truncated_nonstd", "clean_eos_std", "multi_record_payload", "zero_length_item", "full_duplex",
+              "half_close_nonstd", "half_close_broken_std", "reply_after_ragged_eof_delivered",
               "hssl_unexpected_eof_on_cut", "hssl_empty_read_after_close_notify")
     for need in need_a:
         if not flags_a.get(need):
